@@ -522,11 +522,16 @@ class C20(DiffProperty):
     trusted = ["harness/c20_probe.c + props/c20.py:probe regenerate coq/C20/Gen_Layout.v (read tables, member layout, defaults) from the tree",
                "harness/c20_oracle.c: libc strtof/strtod and FPU casts as oracle for float text and float images",
                "string ownership (own copy, no double free, no leak) is observed by ASan/LeakSanitizer in the harness, not proved"]
-    level_text = ("proof: Coq theorems over the transcribed setters/getters for every kind and every settable property, for ALL objects and ALL "
-                  "sources: set_get, set_frame, reset_default, refused_unchanged, copy_equal, colour_print_parse, prefix_match_unique, and the "
-                  "finite sweep get_table_fields_disjoint_in_bounds over the regenerated tables; tied to the code by differential execution")
+    level_text = ("proof: 30 Coq theorems over the transcribed setters/getters for every kind and every settable property, for ALL objects and ALL "
+                  "sources: every set/reset/assignment step and every mpt_object_set_property call (flags, name modes) is the specification's step "
+                  "(C20_set_refines, C20_set_property_refines), histories over all operations from default or constructed objects without hypothesis "
+                  "(C20_history_states_from_init), set_get, set_frame, reset_default, refused_unchanged (record level), copy_equal, colour_print_parse, "
+                  "prefix_match_unique and C20_match_is_spec, lookup by name/prefix through the regenerated tables incl. the 'differs from default' "
+                  "return value (C20_get_by_name, C20_get_flags), the mpt++ wrappers = the C functions and their constructors meet the invariant "
+                  "(C20_cxx_*), and the finite sweep get_table_fields_disjoint_in_bounds over the regenerated tables; tied to the code by differential execution")
     level_note = ("trusted: Coq kernel; hand transcription validated by the correspondence run; extraction; harness; float parsing by libc oracle; "
-                  "string ownership observed by ASan/LSan only")
+                  "string ownership observed by ASan/LSan only; the mpt++ classes are modelled as thin wrappers (their convert() beyond generic assignment "
+                  "of the own class, and constructors with arguments, are not exercised by the harness); typed values through mpt_object_set_property are not covered")
     technique = "Coq proofs over an executable mechanism model + regenerated tables + differential correspondence check"
     assumptions = ["malloc/realloc/strdup succeed", "'C' locale", "libc strtof/strtod correctly rounded (oracle)"]
 
